@@ -234,3 +234,29 @@ func H_C15_odt_row_spans() {
 	}
 	vReach("end")
 }
+
+// H_C02_odt_overlapping_spans: a table whose row and column spans overlap or run past the grid - as a damaged or hostile
+// document may have them - never crashes table parsing or rendering.
+//
+//symgo:harness prop=C02 kernel=odt.TableParser-spans
+//symgo:desc harness-built tableXML of 2..3 rows with 1..2 cells each (enumerated); in the first two rows every cell's number-rows-spanned (1..3) and number-columns-spanned (1..2) are enumerated independently: ParseTable, ToMarkdown, ToText and ToModelTable return without a run-time panic
+func H_C02_odt_overlapping_spans() {
+	rows := vAnyIntIn(2, 3)
+	var tbl tableXML
+	for i := 0; i < rows; i++ {
+		var row tableRowXML
+		for c, n := 0, vAnyIntIn(1, 2); c < n; c++ {
+			rs, cs := "1", "1"
+			if i < 2 { // spans vary in the first two rows; a third row, if any, is plain
+				rs, cs = string(rune('0'+vAnyIntIn(1, 3))), string(rune('0'+vAnyIntIn(1, 2)))
+			}
+			row.Cells = append(row.Cells, tableCellXML{NumberRowsSpanned: rs, NumberColumnsSpanned: cs, Paragraphs: []paragraphXML{{Text: "t"}}})
+		}
+		tbl.Rows = append(tbl.Rows, row)
+	}
+	pt := NewTableParser(nil).ParseTable(tbl)
+	_ = pt.ToMarkdown()
+	_ = pt.ToText()
+	_ = pt.ToModelTable()
+	vReach("end")
+}
